@@ -3,7 +3,7 @@ use crate::proto::Req;
 use crate::rng::Rng;
 pub use imp::run;
 
-pub const DRIVERS: &[&str] = &["rolling_apply", "rolling_apply_idx", "rolling2_apply", "rolling2_apply_idx", "rolling_custom", "rolling2_custom"];
+pub const DRIVERS: &[&str] = &["rolling_apply", "rolling_apply_idx", "rolling2_apply", "rolling2_apply_idx", "rolling_custom", "rolling2_custom", "rolling_custom_iter"];
 pub const OUTC: &[&str] = &["vec", "deque", "nd"];
 
 mod imp {
@@ -97,6 +97,14 @@ macro_rules! drive {
                 "rolling_custom" => finish!(
                     $view.rolling_custom::<$O, i64, _>(w, |sl| { slog.borrow_mut().push(slice_tok(sl.items().into_iter())); next() }, None).unwrap(),
                     |r| { $view.rolling_custom::<$O, i64, _>(w, |sl| { slog.borrow_mut().push(slice_tok(sl.items().into_iter())); next() }, Some(r)); }),
+                "rolling_custom_iter" => {
+                    // the lazy iterator form: consumed by plain iteration, hint checked first
+                    let it = $view.rolling_custom_iter(w, |sl| { slog.borrow_mut().push(slice_tok(sl.items().into_iter())); next() });
+                    let hint = it.size_hint();
+                    let v: Vec<i64> = it.collect();
+                    assert!(hint == (v.len(), Some(v.len())), "size hint {:?} but {} items", hint, v.len());
+                    v
+                },
                 "rolling2_custom" => c2_arm!($c2, $view, $ys, w, $path, $O, $len, slog, next),
                 other => panic!("unknown driver {other}"),
             }
@@ -150,6 +158,9 @@ pub fn generate(tier: &str, _rng: &mut Rng) -> (Vec<String>, bool) {
             }
             for oc in OUTC {
                 for p in ["ret", "out"] {
+                    if *f == "rolling_custom_iter" && (p == "out" || *oc != "vec") {
+                        continue; // lazy iterator: no output container involved
+                    }
                     for n in 0..=maxn {
                         for w in 1..=n + 3 {
                             let sh = if p == "out" || matches!(*b, "vec" | "slice" | "arr" | "arc" | "nd" | "ndvm") || b.starts_with("ndv") { "to" } else { "iter" };
@@ -164,5 +175,5 @@ pub fn generate(tier: &str, _rng: &mut Rng) -> (Vec<String>, bool) {
 }
 
 pub fn rule(tier: &str) -> String {
-    format!("exhaustive: 6 driver entry points (+ their *_to forms through p=out) x 15 input backends (Vec, slice, [T;N], Arc<Vec>, VecDeque at head offsets 0/1/3, Arc<VecDeque>, Array1, ArrayViewMut1, ArrayView1 with step 1,2,3,-1,-2) x 3 output containers x {{returned, caller buffer}} x len 0..={} x window 1..=len+3, with a recording stateful callback (returns a running counter). non-trivial = len >= 2.", if tier == "thorough" { 12 } else { 8 })
+    format!("exhaustive: 7 driver entry points incl. the lazy rolling_custom_iter (+ their *_to forms through p=out) x 15 input backends (Vec, slice, [T;N], Arc<Vec>, VecDeque at head offsets 0/1/3, Arc<VecDeque>, Array1, ArrayViewMut1, ArrayView1 with step 1,2,3,-1,-2) x 3 output containers x {{returned, caller buffer}} x len 0..={} x window 1..=len+3, with a recording stateful callback (returns a running counter). non-trivial = len >= 2.", if tier == "thorough" { 12 } else { 8 })
 }
